@@ -253,7 +253,16 @@ impl DocGen<'_, '_, '_> {
                     };
                     items.push(Sel::Field { alias, name: nm(&fd.name.s), args, dirs, sel });
                 }
-                1 => items.push(typename()),
+                1 => {
+                    let mut t = typename();
+                    if self.c.flag("typename.alias")
+                        && let Sel::Field { alias, .. } = &mut t
+                    {
+                        self.nalias += 1;
+                        *alias = Some(nm(&format!("tn{}", self.nalias)));
+                    }
+                    items.push(t)
+                }
                 2 | 3 => {
                     let conds = self.conds(ty);
                     let cond = if k == 3 { None } else { Some(conds[self.c.choose("inline.cond", conds.len())].clone()) };
